@@ -49,7 +49,10 @@ CHECKS = {
             "values; bounded by the smallest/largest nodal value inside a triangle; nodal at the vertices; affine data are "
             "reproduced by every non-degenerate triangle (whatever triangulation); merging a listed point sets its value and "
             "keeps all others; over the reals no point of a closed (clockwise) triangle is missed by the point-in-triangle test; corner "
-            "override is REFUTED for points with a zero coordinate (known finding D8, kept with a kernel-checked witness). Tie: Surface::local_value on the implementation's own triangle list / kd array vs the "
+            "override is REFUTED for points with a zero coordinate (known finding D8, kept with a kernel-checked witness); for every number "
+            "interpretation (binary64 included, axiom-free): whichever route of the triangle search of Surface::local_value answers (nearest centroid, its longitude "
+            "alias, the other kd candidates, the loop over all nodes), the answer is what in_triangle computes for ONE triangle at the point or its alias, "
+            "and the search fails only if no triangle of the kd array accepts the point (SurfaceLookup.v). Tie: Surface::local_value on the implementation's own triangle list / kd array vs the "
             "model bit-for-bit, merged node set vs the triangulation's vertex set. Known findings D8, D19 are reported as such.",
             "proof over Reals of barycentric interpolation + merge lemmas + bit-exact correspondence with Delaunay/kd data from the implementation", "4 C11"),
     "C14": ("Theorems (Properties_C14.v, axiom-free): a query neither reads nor changes mutable state (no random models), so after "
